@@ -516,7 +516,8 @@ class LoopOnceUnit(Unit):
         ex.models.update(event=EventModel, loopmq=LoopMQ, emitter=EmitterModel)
         now = z3.Real('now')
         T = z3.Real('exit_after_t')
-        bind_imports(ex, FILTER, {'time': {'time': Native(lambda ex_: now, 'time.time')}})
+        # in isolation loop_once compares "the clock" with the deadline it is given; which clock that is (wall / monotonic) is decided end to end in InitUnit
+        bind_imports(ex, FILTER, {'time': {'time': Native(lambda ex_: now, 'time.time'), 'monotonic': Native(lambda ex_: now, 'time.monotonic')}})
         g = ex.modules[FILTER]
         g.update(Filter=ClassRef('Filter'), POLL_TIMEOUT_MS=100, logger=None)
 
@@ -588,14 +589,33 @@ class LoopOnceUnit(Unit):
         class F(Filter):
             def process(self, frames):
                 return None
-        t0 = _t.time()
-        try:
-            F.run({'id': 'replay', 'exit_after': 0.2}, stop_evt=threading.Event(), sig_stop=False)
-            res = f'returned after {_t.time() - t0:.2f}s'
-            ok = _t.time() - t0 < 5
-        except BaseException as e:
-            res, ok = f'raised {type(e).__name__}: {e}', False
-        return {'confirmed': not ok, 'inputs': {'config': {'exit_after': 0.2}}, 'observed': res, 'required': 'exit_after T ends the filter cleanly within one loop iteration after T'}
+        from datetime import datetime, timedelta
+        obs = []
+        forms = [('seconds', 0.2), ('m:s text', '0:00.2'), ('@time', None), ('@time in the past', '@' + (datetime.now().astimezone() - timedelta(seconds=30)).isoformat())]
+        for label, ea in forms:
+            if ea is None:
+                ea = '@' + (datetime.now().astimezone() + timedelta(seconds=0.4)).isoformat()
+            stop = threading.Event()
+            done = {}
+
+            def runner():
+                try:
+                    F.run({'id': 'replay', 'exit_after': ea}, stop_evt=stop, sig_stop=False)
+                    done['res'] = 'returned'
+                except BaseException as e:
+                    done['res'] = f'raised {type(e).__name__}: {e}'
+            t0 = _t.time()
+            th = threading.Thread(target=runner, daemon=True)
+            th.start()
+            th.join(4)
+            if th.is_alive():
+                obs.append(f'exit_after={ea!r} ({label}): still running {_t.time() - t0:.1f}s after start')
+                stop.set()
+                th.join(5)
+            elif done.get('res') != 'returned':
+                obs.append(f'exit_after={ea!r} ({label}): {done.get("res")}')
+        return {'confirmed': bool(obs), 'inputs': {'exit_after forms': [f[0] for f in forms]}, 'observed': obs or 'every form ended the filter cleanly',
+                'required': 'exit_after T ends the filter cleanly within one loop iteration after T'}
 
 
 # ================================================================================================== Filter.init
@@ -610,11 +630,12 @@ class CtxModel:
 class InitUnit(Unit):
     name = 'Filter.init'
     targets = (f'{FILTER}::Filter.init', f'{FILTER}::Filter.init.on_exit_msg')
-    required_covers = ('init returned',)
+    required_covers = ('init returned',)      # (+ 'iteration after init' for C08 instances)
     mutants = (
         ('START emitted after the heartbeat thread is started', f'{FILTER}::Filter.init', 'self.emitter.emit_start(facets=facets)\n            self.emitter.start_lineage_heart_beat()', 'self.emitter.start_lineage_heart_beat()\n            self.emitter.emit_start(facets=facets)', 'C18.start_first'),
         ('obey policy ignored for error exits', f'{FILTER}::Filter.init', "if self.obey_exit & PROP_EXIT_FLAGS['error']:", "if True:", 'C08.obey'),
         ('deadline is the interval, not now + interval', f'{FILTER}::Filter.init', 'self.exit_after_t = time.time() + exit_after', 'self.exit_after_t = exit_after', 'C08.exit_after'),
+        ('the @time deadline is compared with another clock', f'{FILTER}::Filter.init', 'self.exit_after_t = (dt := parse_date_and_or_time(exit_after[1:], LOG_UTC)).timestamp()', 'self.exit_after_t = (dt := parse_date_and_or_time(exit_after[1:], LOG_UTC)).timestamp() - time.time() + time.monotonic() + 1', 'C08.exit_after'),
     )
 
     def __init__(self, props=('C08',)):
@@ -636,7 +657,9 @@ class InitUnit(Unit):
         class W:
             log, ev, start_facets = [], [], None
         ex.models.update(event=EventModel, emitter=EmitterModel, loggerobj=LoggerObjModel, ctx=CtxModel, mqobj=MQModel)
-        bind_imports(ex, FILTER, {'time': {'time': Native(lambda ex_: now, 'time.time')}})
+        mono = z3.Real('monotonic_now')
+        clk = {'wall': now, 'mono': mono}       # two clocks that advance together (no clock adjustment during the run): wall (epoch seconds) and monotonic (arbitrary origin)
+        bind_imports(ex, FILTER, {'time': {'time': Native(lambda ex_: clk['wall'], 'time.time'), 'monotonic': Native(lambda ex_: clk['mono'], 'time.monotonic')}})
         mq_args = {}
 
         def MQ_(ex_, *a, **kw):
@@ -674,13 +697,32 @@ class InitUnit(Unit):
         ex.cover('init returned')
         O = ex.oblige
         if 'C08' in self.props:
-            t = me.f.get('exit_after_t', 'unset')
-            if ea == 'none':
-                O('C08.exit_after: no exit_after, no deadline', t is None)
-            elif ea in ('seconds', 'interval'):
-                O('C08.exit_after: seconds / "m:s" become the deadline now + interval', ex.toz(t) == now + secs if not (t is None or isinstance(t, str)) else False)
-            else:
-                O('C08.exit_after: "@time" becomes that absolute deadline', t is at)
+            # end to end: the real loop_once run on this very object `elapsed` seconds later (both clocks advanced by it) exits exactly when the deadline the
+            # configuration names has been reached -- whichever clock the implementation keeps the deadline in
+            el = z3.Real('elapsed')
+            ex.assume(el >= 0)
+            clk['wall'], clk['mono'] = now + el, mono + el
+            fn = extract.load(FILTER).find('Filter.loop_once')
+            loops = [n for n in ast.walk(fn) if isinstance(n, ast.While)]
+            for lp, nm in zip(loops, ('sources_timeout', 'outputs_timeout')):
+                ex.loop_specs[ex.loop_key(lp)] = TrivialLoop(None, (lambda nm_: lambda ex_, env: env.assign(nm_, float('inf')))(nm), heap_keeps=(('loopmq', 'log'),))
+            ex.models['loopmq'] = LoopMQ
+            me.f['mq'] = Obj('loopmq', log=[], frames_in={'main': 'frame'})
+            me.f['process_frames'] = Native(lambda ex_, fr: fr, 'process_frames')
+            g['POLL_TIMEOUT_MS'] = 100
+            res = 'returned'
+            try:
+                ex.call_closure(closure(FILTER, 'Filter.loop_once'), [me], {})
+            except CutPath:
+                res = 'cut'
+            except ExcSig as e:
+                res = e.cls
+            if res != 'cut':
+                ex.cover('iteration after init')
+                want = {'none': z3.BoolVal(False), 'seconds': el >= secs, 'interval': el >= secs, 'at': now + el >= at}[ea]
+                O('C08.exit_after: the first iteration that ends after the configured deadline (seconds / "m:s" since init, or the "@time" wall-clock instant) exits cleanly, none before it',
+                  z3.BoolVal(res == 'Exit') == want if res in ('returned', 'Exit') else False)
+                stop.f['isset'] = False
             cb = mq_args.get('on_exit_msg')
             O('C08.obey: the MQ is given the exit-message callback', isinstance(cb, Closure))
             if isinstance(cb, Closure):
